@@ -1667,6 +1667,8 @@ def _gen_general(rng):
     M = X @ X.T / n + np.eye(n) * rng.uniform(0.5, 2.0)
     if rng.random() < 0.4:
         M = np.diag(rng.uniform(0.5, 3.0, n))
+        if rng.random() < 0.35:
+            M = np.eye(n)
     nz = int(rng.integers(0, n)) if rng.random() < 0.6 else 0  # DOF with no stiffness at all
     ne = n - nz
     wn = rng.uniform(0.3, 4.0, ne) / h / 6
@@ -1761,6 +1763,37 @@ def _oracle_general(s, fails):
                 return
 
     run("SolveExp2", lambda: ode.SolveExp2(M, B, K, h, order=o).tsolve(F, d0, v0), 1e-8)
+    # packaging of the same problem: a lumped mass given as a 1-D vector (with and without the modal pre-transformation),
+    # the first-order form through SolveExp1, force samples handed over as integer / single-precision arrays
+    Mdiag = bool(np.all(M == np.diag(np.diag(M))))
+    if Mdiag:
+        mv = np.diag(M).copy()
+        run("SolveExp2-mass-vector", lambda: ode.SolveExp2(mv, B, K, h, order=o).tsolve(F, d0, v0), 1e-8)
+        run("SolveExp2-mass-vector-pre_eig", lambda: ode.SolveExp2(mv, B, K, h, order=o, pre_eig=True).tsolve(F, d0, v0), 1e-7)
+    run("SolveExp2-pre_eig", lambda: ode.SolveExp2(M, B, K, h, order=o, pre_eig=True).tsolve(F, d0, v0), 1e-7)
+    Fi = np.round(F)
+    if np.abs(Fi).max() > 0:
+        ri = _expm_reference(M, B, K, h, Fi, d0, v0, o)
+        Ssys = np.zeros((2 * n, 2 * n))
+        Mi_ = np.linalg.inv(M)
+        Ssys[:n, :n], Ssys[:n, n:], Ssys[n:, :n] = -Mi_ @ B, -Mi_ @ K, np.eye(n)
+        y0 = np.concatenate([np.zeros(n) if v0 is None else v0, np.zeros(n) if d0 is None else d0])
+        for dt in ("int64", "float32", "float64"):
+            f1 = np.vstack([Mi_ @ Fi, np.zeros_like(Fi)]) if not Mdiag else np.vstack([Fi / np.diag(M)[:, None], np.zeros_like(Fi)])
+            if dt != "float64" and (not Mdiag or not np.all(np.diag(M) == 1.0)):
+                continue  # the first-order force M^-1 F is whole-numbered only for a unit mass
+            try:
+                with warnings.catch_warnings():
+                    warnings.simplefilter("ignore")
+                    so = ode.SolveExp1(Ssys, h, order=o).tsolve(f1.astype(dt), y0)
+                e = _rel(np.asarray(so.d)[n:], ri[0], np.abs(ri[0]).max() + h * np.abs(ri[1]).max() + 1e-300)
+                if not e <= (1e-8 if dt != "float32" else 1e-5):
+                    fails.append({"family": "general-coupled-SolveExp1-force-dtype-%s-vs-expm-reference" % dt,
+                                  "what": "SolveExp1 with a %s force array differs from the exact hold solution" % dt,
+                                  "input": inp, "observed": e, "required": "<= 1e-8"})
+            except Exception as e:  # noqa: BLE001
+                fails.append({"family": "general-coupled-raises-SolveExp1-" + dt, "what": "SolveExp1 refuses a valid system",
+                              "input": inp, "observed": repr(e)[:120], "required": "a solution"})
     grade = _slow_mode_grade(lam, h)
     if grade is None:
         # a very slow mode (5e-5 <= |lam|, |lam| h < 1e-3): the coefficients of the complex path are ill conditioned
